@@ -203,7 +203,7 @@ def execute(case):
 
     cbs = []        # per callback: list of per-signal copies of the state
     subs = []       # per subsolv call: arguments (copied before the call), returned tuple (copied), KKT residuals
-    orig, orig_res = mmamod.subsolv, mmamod.residual
+    orig, orig_res = mmamod.subsolv, getattr(mmamod, 'residual', None)
     buf = io.StringIO()
     work = [0]
     truncated = [None]
@@ -236,7 +236,9 @@ def execute(case):
         cbs.append([np.array(s.state) for s in sigs])
 
     spec = lambda v: v.copy() if isinstance(v, np.ndarray) else v
-    mmamod.subsolv, mmamod.residual = spy, counting_residual
+    mmamod.subsolv = spy
+    if orig_res is not None:
+        mmamod.residual = counting_residual   # only counts work (cost guard), never alters a value
     try:
         with contextlib.redirect_stdout(buf):
             pym.minimize_mma(net, sigs, outs, verbosity=0, maxit=MAXIT, tolx=TOLX, move=spec(move_spec),
@@ -246,7 +248,9 @@ def execute(case):
     except _Truncate as e:
         truncated[0] = str(e).split('\n')[0]
     finally:
-        mmamod.subsolv, mmamod.residual = orig, orig_res
+        mmamod.subsolv = orig
+        if orig_res is not None:
+            mmamod.residual = orig_res
     final = [np.array(s.state) for s in sigs]
 
     V, nchecks, observed = [], 0, set()
